@@ -122,13 +122,14 @@ for P in (B, E):
              ensures=lambda c, P=P: _init_post(c, P),
              assigns=lambda c, P=P: [c.field_addr(c.this, P, PROCS[P]['key']), c.field_addr(c.this, P, PROCS[P]['filled'])] + _cache_region(c, P))
 
-# ---- the manager's processor cache (SIZE = 2 instantiations) ----------------------------------------------
-CACHES = {
-    'ace_time::ZoneProcessorCacheImpl<(unsigned char)2, (unsigned char)4, ace_time::BasicZoneProcessor, ace_time::basic::ZoneInfo, ace_time::basic::ZoneInfoBroker>': (B, 'ace_time::basic::ZoneInfo'),
-    'ace_time::ZoneProcessorCacheImpl<(unsigned char)2, (unsigned char)5, ace_time::ExtendedZoneProcessor, ace_time::extended::ZoneInfo, ace_time::extended::ZoneInfoBroker>': (E, 'ace_time::extended::ZoneInfo'),
-}
-def _make_cache(CN, P, ZI):
-    SIZE = 2
+# ---- the manager's processor cache (SIZE = 1..4 instantiations, as in the property) ------------------------
+CACHES = {}
+for _size in (1, 2, 3, 4):
+    CACHES[('ace_time::ZoneProcessorCacheImpl<(unsigned char)%d, (unsigned char)4, ace_time::BasicZoneProcessor, ace_time::basic::ZoneInfo, ace_time::basic::ZoneInfoBroker>' % _size)] = (B, 'ace_time::basic::ZoneInfo', _size)
+    CACHES[('ace_time::ZoneProcessorCacheImpl<(unsigned char)%d, (unsigned char)5, ace_time::ExtendedZoneProcessor, ace_time::extended::ZoneInfo, ace_time::extended::ZoneInfoBroker>' % _size)] = (E, 'ace_time::extended::ZoneInfo', _size)
+
+
+def _make_cache(CN, P, ZI, SIZE):
 
     def _slots(c, view, CN=CN, P=P):
         base, total = c.field_addr(c.this, CN, 'mZoneProcessors')
@@ -163,5 +164,5 @@ def _make_cache(CN, P, ZI):
     contract(CN + '::getZoneProcessor(void const*)', props=['C08', 'C09'], requires=_gzp_pre, ensures=_gzp_post, assigns=_gzp_assigns, unroll=SIZE + 1)
 
 
-for _cn, (_p, _zi) in CACHES.items():
-    _make_cache(_cn, _p, _zi)
+for _cn, (_p, _zi, _sz) in CACHES.items():
+    _make_cache(_cn, _p, _zi, _sz)
